@@ -540,7 +540,15 @@ impl WatchDispatcher {
                     match result {
                         Ok(event) => self.dispatch_event(event).await,
                         Err(broadcast::error::RecvError::Lagged(n)) => {
-                            warn!("WatchDispatcher lagged {} events (slow watchers)", n);
+                            // The broadcast queue overflowed: `n` events were dropped before
+                            // they could be routed, so any watcher may have missed changes.
+                            // A silent gap is not allowed - end every stream with CANCELED so
+                            // clients re-sync (scan + re-watch), as on a per-watcher overflow.
+                            warn!(
+                                "WatchDispatcher lagged {} events, cancelling all watchers",
+                                n
+                            );
+                            self.cancel_all_watchers();
                         }
                         Err(broadcast::error::RecvError::Closed) => {
                             debug!("Broadcast channel closed, WatchDispatcher stopping");
@@ -582,6 +590,27 @@ impl WatchDispatcher {
         }
         for key in prefix_keys {
             self.dispatch_to_map(&self.registry.prefix, &key, &progress).await;
+        }
+    }
+
+    /// End every active watch stream with a CANCELED event and drop its registration.
+    ///
+    /// Used when events were lost upstream of the per-watcher channels. The reserved
+    /// slot in each watcher channel guarantees the cancel event is deliverable.
+    fn cancel_all_watchers(&self) {
+        for map in [&self.registry.exact, &self.registry.prefix] {
+            let keys: Vec<Bytes> = map.iter().map(|e| e.key().clone()).collect();
+            for key in keys {
+                if let Some((_, watchers)) = map.remove(&key) {
+                    for watcher in watchers {
+                        let _ = watcher.sender.try_send(crate::watch::make_cancel_event(key.clone()));
+                        self.registry.total_count.fetch_sub(1, Ordering::Relaxed);
+                        if watcher.prev_kv {
+                            self.registry.prev_kv_watcher_count.fetch_sub(1, Ordering::Relaxed);
+                        }
+                    }
+                }
+            }
         }
     }
 
